@@ -1,8 +1,10 @@
 NOTES = "All checks are static analyses of /repo's working tree at level 'other': each decides named structural necessary conditions of its property (see DESIGN.md section 4), never the behavioural statement itself."
 NOT_APPLICABLE = {}
 NOTE_COMMON = "Trusted base: go/packages + go/types + go/ssa (x/tools v0.50.0, go1.26.8 front end); the obligation tables in checker/internal/props; third-party libraries and user callbacks carry no obligations. Level 'other': structural necessary conditions of the property are decided on every path of the anchored functions; the behavioural statement itself (over histories/schedules/values) is not."
-CLAIMED = {
- "C01": ("edge-cut guard obligations + provenance of message fields on SSA (static analysis)",
-         "Decides on the SSA of broker.go that no EVENT send bypasses the publisher-exclusion, filter and topic-match guards; that EVENT/PUBLISHED/SUBSCRIBED fields have the right provenance; that URI validation dominates the hand-off; that match policy selects tables consistently; that UNSUBSCRIBE has effects only for a member. Does not decide exactly-once delivery over histories nor the match functions themselves.",
-         NOTE_COMMON, "DESIGN.md section 4 C01"),
+CLAIMED = {}
+# property -> technique (the deciding method); level text comes from `nxcheck describe`
+TECH = {
+ "C01": "SSA edge-cut guard obligations + message-field provenance + table agreement (static analysis)",
+ "C02": "SSA must-pass-through / pairing obligations on the call state machine + reply provenance + who-may-answer (static analysis)",
+ "C03": "SSA edge-cut guard obligations, switch/case-set agreement, INVOCATION provenance (static analysis)",
 }
